@@ -89,6 +89,10 @@ func c06gen(rng *rand.Rand, hp *Pool, cat []catEntry) c06op {
 	case 6:
 		return c06op{"literal %{**m, k: v}", fmt.Sprintf("%%{**%s, %s: %s}", n("map", "obj"), n(), n())}
 	case 7:
+		if rng.Intn(2) == 0 {
+			// two ** expansions in one call: the second must not be merged into the first operand
+			return c06op{"call with two ** expansions", fmt.Sprintf("{|x, k: 1| [\\_, x, k]}(%s, **%s, **%s)", n(), n("obj"), n("obj"))}
+		}
 		return c06op{"call with *args/**kwargs", fmt.Sprintf("{|x, y, k: 1| [\\0, \\_, x, k]}(*%s, **%s, k: %s)", n("arr"), n("obj"), n())}
 	case 8:
 		ch := []string{"@", "=@", "~@", "&@"}[rng.Intn(4)]
@@ -116,6 +120,10 @@ func c06gen(rng *rand.Rand, hp *Pool, cat []catEntry) c06op {
 		}
 		return c06op{"same source * twice", fmt.Sprintf("[%s * 2, %s * 3]", a, a)}
 	case 13:
+		if rng.Intn(3) == 0 {
+			// property call with two ** expansions (built-in and user callee)
+			return c06op{"prop call with two ** expansions", fmt.Sprintf("%s.p(**%s, **%s)", n(), n("obj"), n("obj"))}
+		}
 		p := []string{"bear", "bro", "new", "patch", "del", "digest", "assign", "append", "T", "rev", "sort", "uniq", "A", "O", "M", "S", "keys", "values", "items", "proto"}[rng.Intn(20)]
 		return c06op{"prop " + p, fmt.Sprintf("%s.%s(%s)", n(), p, n())}
 	case 14:
